@@ -72,6 +72,7 @@ type c13Env struct {
 }
 
 func c13Run(c *fw.Ctx) {
+	c.Retries = 2 // socket-based harness: tolerate a transient glitch while replaying a prefix
 	vtime.SetManual(harness.T0)
 	defer vtime.SetReal()
 	menu := c13Menu()
